@@ -172,4 +172,8 @@ theorem compileSim_of_fragGo {i : E2EIn} {b : BackStages} (h : backStages i = so
   exact GoCompileProps.compile_preserves_run i.goenv b.afile b.gensym _ hclosed f hfmem hname hps hmainG
     b.mid.anf (annotFile_toFn _ _ hann).symm fuel eager hdef
 
+/-- `DceFileSim` is now a theorem for every file inside the DCE contract (`Dce.dce_file_preserves`) -/
+theorem dceFileSim_of_ok (G : GFile) (hok : Dce.fileDceOK G = true) : DceFileSim G :=
+  fun fuel eager hdef => Dce.dce_file_preserves G hok fuel eager 0 hdef
+
 end Goml.Pipeline
